@@ -7,11 +7,11 @@
    A state without successor (TLC deadlock) is an observation of the real code
    that the P-spec rejects; terminal nodes of the real graph stutter. *)
 EXTENDS SleepMon, Json, TLC
-CONSTANTS GNW, GPre, GInit
+CONSTANTS GNW, GPre, GPreQ, GInit
 VARIABLES node, ei, k
 gvars == <<node, ei, k, mvars>>
 Adj == ndJsonDeserialize("graph.ndjson")
-GInitP == node = GInit /\ ei = 0 /\ k = 0 /\ MStart(GNW, GPre)
+GInitP == node = GInit /\ ei = 0 /\ k = 0 /\ MStart(GNW, GPre, GPreQ)
 Choose == /\ ei = 0 /\ \E j \in 1..Len(Adj[node].out) : ei' = j
           /\ k' = 0 /\ UNCHANGED <<node, mvars>>
 Feed == /\ ei # 0 /\ k < Len(Adj[node].out[ei].events)
@@ -21,6 +21,7 @@ Feed == /\ ei # 0 /\ k < Len(Adj[node].out[ei].events)
                [] ev.ev = "obs" -> MObs(ev)
                [] ev.ev = "ret" -> MRet(ev)
                [] ev.ev = "reattach" -> MReattach(ev)
+               [] ev.ev = "stuck" -> MStuck(ev)
 Move == /\ ei # 0 /\ k = Len(Adj[node].out[ei].events)
         /\ node' = Adj[node].out[ei].dst /\ ei' = 0 /\ k' = 0 /\ UNCHANGED mvars
 Term == ei = 0 /\ Len(Adj[node].out) = 0 /\ UNCHANGED gvars
